@@ -45,7 +45,7 @@ class T1TModel:
     brty = "106A"
 
     def __init__(self, mem, hr0=0x11, hr1=0x48, oneway=None, dynamic=None, beyond="silent",
-                 readonly_blocks=(0, 13), sens_res=b"\x00\x0c"):
+                 readonly_blocks=(0, 13), sens_res=b"\x00\x0c", rid_len=None):
         self.mem = bytearray(mem)
         assert len(self.mem) >= 120 and len(self.mem) % 8 == 0 and len(self.mem) <= 2048
         self.hr0, self.hr1 = hr0, hr1
@@ -55,6 +55,7 @@ class T1TModel:
         self.readonly_blocks = set(readonly_blocks)
         self.beyond = beyond
         self.sens_res = bytes(sens_res)
+        self.rid_len = rid_len     # None: the regular 6 byte RID answer; n: cut to n bytes / padded with 00h to n bytes
         self.on_state_change = lambda: None
         self.write_log = []       # (opcode name, first byte address, unit length, executed, bytes before, bytes after)
         self.read_log = []        # (opcode name, first byte address, length)
@@ -67,7 +68,10 @@ class T1TModel:
         return bytes(self.mem[0:4])
 
     def rid_res(self):
-        return bytes([self.hr0, self.hr1]) + self.uid
+        r = bytes([self.hr0, self.hr1]) + self.uid
+        if self.rid_len is not None:       # (robustness workload only: RID answers of other lengths, well framed)
+            r = (r + bytes(16))[:self.rid_len]
+        return r
 
     def target(self):
         return nfc.clf.RemoteTarget("106A", sens_res=bytearray(self.sens_res), rid_res=bytearray(self.rid_res()))
